@@ -3,6 +3,7 @@
 // worker threads run operations from a menu of const member calls, copies and
 // destructions of objects sharing one grid.
 #include <bspline/Core.h>
+#include <bspline/integration/numerical.h>
 
 #include <cstring>
 #include <memory>
@@ -160,6 +161,20 @@ struct World {
         d.spline(Dx<2>{} * *a);
         break;
       }
+      case 11: {  // linear combination of shared const splines, numerical quadrature, interval-free results
+        if constexpr (std::is_same_v<T, double>) {
+          std::vector<T> cs{mk<T>(2), mk<T>(-0.5)};
+          std::vector<S2> v{*a, *b};
+          d.spline(linearCombination(cs, v));
+          d.val(integration::integrate<3>([](const T &x) { return x * x; }, *a, *b));
+        } else {
+          std::vector<T> cs{mk<T>(2), mk<T>(-0.5)};
+          std::vector<S2> v{*a, *b};
+          d.spline(linearCombination(cs.begin(), cs.end(), v.begin(), v.end()));
+        }
+        d.spline(*a * S2(*grid));
+        break;
+      }
       case 8: {  // support algebra on shared const supports
         auto u1 = sup->calcUnion(a->getSupport());
         auto i1 = sup->calcIntersection(b->getSupport());
@@ -174,9 +189,9 @@ struct World {
 
 static World<double> *w0;
 static World<Dbl> *w1;
-static const char *OPN[] = {"evaluate", "copy+destroy", "combine", "transform", "integrate", "generate", "isZero", "destroy-owned", "support-algebra", "combine-with-equal-grid-copy", "position-powers"};
+static const char *OPN[] = {"evaluate", "copy+destroy", "combine", "transform", "integrate", "generate", "isZero", "destroy-owned", "support-algebra", "combine-with-equal-grid-copy", "position-powers", "lincomb+quadrature"};
 extern "C" {
-int c18_nops() { return 11; }
+int c18_nops() { return 12; }
 const char *c18_opname(int op) { return OPN[op]; }
 void c18_setup(int variant) {
   if (variant == 0) { w0 = new World<double>(); w0->setup(); }
